@@ -26,7 +26,7 @@ META = {
                     "columns (also after re-formulation); power-cone towers verified in the log domain for every "
                     "weight list up to the stated bound.  Complete over values; shapes and weight lists bounded."),
     "bounds": "atoms: argument length 2; towers: all weight lists of length <= 3 with entries <= 4 (quick), length <= 4 entries <= 6 (thorough)",
-    "trusted_base": ["z3/cvc5", "log-domain reading of rotated cones on the positive orthant (mathematics)", "ShimCSR"],
+    "trusted_base": ["z3/cvc5", "log-domain reading of rotated cones on the positive orthant: Lean-checked (lean/Lemmas.lean rotated_cone_log, job lemmas-lean)", "ShimCSR"],
     "assumptions": ["the external solver finds the optimum of the compiled program (not decided here)",
                     "A-LOG: tower variables are positive (the closure at 0 is not examined)"],
 }
